@@ -8,12 +8,13 @@ use std::time::Instant;
 
 use crate::commands::{
     print_available_commands, run_command, Command, CommandError, CommandParseError, EvalAction,
+    NOTHING_TO_SKIP,
 };
 use crate::diagnostics::format_exception_with_stack;
 use crate::env::Env;
 use crate::eval::{
-    eval, load_toplevel_items_with_stubs, push_test_stackframe, EvalError, ExceptionInfo,
-    ExpressionState, Session, StdoutStderrMode,
+    eval, load_toplevel_items_with_stubs, push_test_stackframe, skip_current_expr, EvalError,
+    ExceptionInfo, ExpressionState, Session, StdoutStderrMode,
 };
 use crate::parser::ast::{IdGenerator, ToplevelItem};
 use crate::parser::{parse_toplevel_items, ParseError};
@@ -176,12 +177,10 @@ pub(crate) fn repl(interrupted: Arc<AtomicBool>, trace_exprs: bool) {
                 // TODO: Prevent :replace when we've not just halted.
             }
             Err(ReadError::NeedsEval(EvalAction::Skip)) => {
-                let stack_frame = env.stack.0.last_mut().unwrap();
-
-                stack_frame
-                    .exprs_to_eval
-                    .pop()
-                    .expect("Tried to skip an expression, but none in this frame.");
+                if !skip_current_expr(&mut env) {
+                    println!("{NOTHING_TO_SKIP}");
+                    continue;
+                }
             }
             Err(ReadError::NeedsEval(EvalAction::RunTest(name))) => {
                 // Push test then continue to eval_env().
